@@ -33,17 +33,19 @@ import (
 // ---------------------------------------------------------------------------
 
 type sysPeer struct {
-	w      *sysWorld
-	name   string
-	dir    string
-	id     peer.ID
-	o      *orbitDB
-	env    *vstubodb.Env
-	node   *vstubodb.NetNode
-	blocks *vstub.Blocks
-	stores map[string]Store // by database address
-	wrote  bool             // this peer has acknowledged writes
-	gen    int              // number of times its storage was wiped
+	sharedOpts bool
+	opts       *CreateDBOptions
+	w          *sysWorld
+	name       string
+	dir        string
+	id         peer.ID
+	o          *orbitDB
+	env        *vstubodb.Env
+	node       *vstubodb.NetNode
+	blocks     *vstub.Blocks
+	stores     map[string]Store // by database address
+	wrote      bool             // this peer has acknowledged writes
+	gen        int              // number of times its storage was wiped
 	// cancelParent cancels the context the instance was created with
 	cancelParent context.CancelFunc
 }
@@ -132,7 +134,15 @@ func (p *sysPeer) create(name, typ string) Store {
 
 // open opens the database at addr on p (as a second peer, or after a restart) and loads it.
 func (p *sysPeer) open(addr string) Store {
-	st, err := p.o.Open(context.Background(), addr, &CreateDBOptions{IO: p.env.IO})
+	opts := &CreateDBOptions{IO: p.env.IO}
+	if p.sharedOpts {
+		// the caller reuses ONE options value for every database it opens
+		if p.opts == nil {
+			p.opts = opts
+		}
+		opts = p.opts
+	}
+	st, err := p.o.Open(context.Background(), addr, opts)
 	if err != nil {
 		vstub.Fail("sys: Open failed")
 		return nil
@@ -624,6 +634,10 @@ func VerifSysTwoDBs() {
 		return
 	}
 	addrA, addrB := sa.Address().String(), sb.Address().String()
+	if vstub.NdChoice("shared-options", 2) == 1 {
+		b.sharedOpts = true
+		vstub.Cover("shared-options")
+	}
 	if b.open(addrA) == nil || b.open(addrB) == nil {
 		return
 	}
